@@ -13,7 +13,7 @@ from vlib.runner import HarnessError, Mismatch, drive
 PROP = "C10"
 LEVEL = "fault_enumeration"
 WORKERS = {"quick": 4, "thorough": 16}
-BUDGET = {"quick": 80, "thorough": 700}
+BUDGET = {"quick": 120, "thorough": 700}
 TECHNIQUE = "Hypothesis-generated write scenarios; exhaustive enumeration of crash points / torn prefixes of every fs step and of every reader placement (step scheduler); old-or-new parse oracle"
 LEVEL_TEXT = (
     "For every generated scenario the file-system steps of the write are traced (Python-level fs shim in a forked child), "
